@@ -95,6 +95,17 @@ func c06VlogHist(c *Ctx, idx int) error {
 	opt := badger.DefaultOptions(dir).WithLoggingLevel(badger.ERROR).WithValueThreshold(threshold).
 		WithValueLogMaxEntries(maxEntries).WithValueLogFileSize(fileSize).WithMemTableSize(8 << 20).
 		WithNumCompactors(0).WithNumVersionsToKeep(1000).WithMetricsEnabled(false).WithCompactL0OnClose(false)
+	encrypted := idx%4 == 2
+	if encrypted {
+		// the record cipher uses an IV derived from the record's own offset: pointers and
+		// read-back values must be those of the plain model (the cipher is an involution)
+		key := make([]byte, 32)
+		for j := range key {
+			key[j] = byte(c.Rng.Intn(256))
+		}
+		opt = opt.WithEncryptionKey(key).WithIndexCacheSize(1 << 20)
+		c.Count("VlogEncrypted")
+	}
 	db, err := badger.OpenManaged(opt)
 	if err != nil {
 		return err
